@@ -280,6 +280,8 @@ def canon(t, depth=0):
         return repr(t[2]) if t[1] == "str" else str(t[2])
     if tag == "elem":
         return "elem(%s)" % canon(t[1], d)
+    if tag == "mutated":
+        return "mut!(%s via %s)" % (canon(t[1], d), "/".join(t[2]))
     if tag == "field":
         base = strip(t[1])
         # (x as Continue).0 of Try::branch(x)  =>  try(x)
